@@ -234,30 +234,34 @@ theorem clampReduce_value (ρ : Env) (hw : ρ.wf) (cfg : Cfg) (hcss : cfg.clampC
     have hU := unitVal_pos ρ hw v.u
     have hUm := unitVal_pos ρ hw mn.u
     rw [← clamp_cascade]
-    have l1 := mul_le_mul_right_iff v.n mn' _ hU
-    have l3 := mul_le_mul_right_iff mx' v.n _ hU
-    simp only [Num.val]
+    have k1 : v.n ≤ mn' ↔ v.val ρ ≤ mn.val ρ := by
+      unfold Num.val; rw [← e1]; exact mul_le_mul_right_iff v.n mn' _ hU
+    have k3 : mx' ≤ v.n ↔ mx.val ρ ≤ v.val ρ := by
+      unfold Num.val; rw [← e2]; exact mul_le_mul_right_iff mx' v.n _ hU
     by_cases c1 : v.n ≤ mn'
     · rw [if_pos c1] at h; cases h
-      rw [if_pos (by rw [← e1]; exact l1.mp c1)]
+      rw [if_pos (k1.mp c1)]
     · rw [if_neg c1] at h
-      rw [if_neg (by rw [← e1]; exact fun x => c1 (l1.mpr x))]
-      simp only [hcss, if_true] at h
-      split at h
-      · rename_i mxm c3
+      rw [if_neg (fun x => c1 (k1.mpr x))]
+      rw [if_pos hcss] at h
+      cases c3 : convert mx.n mx.u mn.u with
+      | none => rw [c3] at h; cases h
+      | some mxm =>
+        rw [c3] at h
+        simp only [] at h
         have e3 := convert_value ρ mx.n mxm mx.u mn.u (compatible_symm _ _ h2) c3
-        have l2 := mul_lt_mul_right_iff mxm mn.n _ hUm
+        have k2 : mxm < mn.n ↔ mx.val ρ < mn.val ρ := by
+          unfold Num.val; rw [← e3]; exact mul_lt_mul_right_iff mxm mn.n _ hUm
         by_cases c2 : mxm < mn.n
         · rw [if_pos c2] at h; cases h
-          rw [if_pos (by rw [← e3]; exact l2.mp c2)]
+          rw [if_pos (k2.mp c2)]
         · rw [if_neg c2] at h
-          rw [if_neg (by rw [← e3]; exact fun x => c2 (l2.mpr x))]
+          rw [if_neg (fun x => c2 (k2.mpr x))]
           by_cases c4 : v.n ≥ mx'
           · rw [if_pos c4] at h; cases h
-            rw [if_pos (by rw [← e2]; exact l3.mp c4)]
+            rw [if_pos (k3.mp c4)]
           · rw [if_neg c4] at h; cases h
-            rw [if_neg (by rw [← e2]; exact fun x => c4 (l3.mpr x))]
-      · cases h
+            rw [if_neg (fun x => c4 (k3.mpr x))]
   · cases h
 
 theorem clampReduce_no_panic (cfg : Cfg) (mn v mx : Num)
